@@ -147,10 +147,12 @@ Duration Driver::DriverImpl::StepTodos(Deadline deadline)
 void Driver::DriverImpl::StepSockets(Duration timeout)
 {
   // query sockets whether they request/suppress write poll
-  // the TLS socket uses this override for the TLS handshake
-  QuerySockets();
+  // the TLS socket uses this override for the TLS handshake and to announce
+  // received data it holds already (which the wait below would not report)
+  auto const received = QuerySockets();
+  bool const isReceived = (received < sockets.size());
 
-  if(!Wait(pfds, timeout)) {
+  if(!Wait(pfds, (isReceived ? Duration(0) : timeout)) && !isReceived) {
     return; // timeout exceeded
   }
 
@@ -161,7 +163,7 @@ void Driver::DriverImpl::StepSockets(Duration timeout)
   } else if(pfds.front().revents != 0) {
     throw std::logic_error("unexpected signalling pipe poll result");
   } else {
-    DoOneSocketTask();
+    DoOneSocketTask(received);
   }
 }
 
@@ -245,8 +247,9 @@ void Driver::DriverImpl::Unbump()
   (void)pipeTo.ReceiveFrom(dump, sizeof(dump));
 }
 
-void Driver::DriverImpl::QuerySockets()
+size_t Driver::DriverImpl::QuerySockets()
 {
+  auto received = sockets.size();
 #ifdef SOCKPUPPET_WITH_TLS
   assert(sockets.size() + 1U == pfds.size());
 
@@ -255,12 +258,15 @@ void Driver::DriverImpl::QuerySockets()
     auto &&sock = sockets[i].get();
     assert(pfd.fd == sock.DriverGetFd());
 
-    sock.DriverQuery(pfd.events);
+    if(sock.DriverQuery(pfd.events) && (received == sockets.size())) {
+      received = i;
+    }
   }
 #endif // SOCKPUPPET_WITH_TLS
+  return received;
 }
 
-void Driver::DriverImpl::DoOneSocketTask()
+void Driver::DriverImpl::DoOneSocketTask(size_t received)
 {
   assert(sockets.size() + 1U == pfds.size());
 
@@ -270,7 +276,7 @@ void Driver::DriverImpl::DoOneSocketTask()
     auto &&sock = sockets[i].get();
     assert(pfd.fd == sock.DriverGetFd());
 
-    if(pfd.revents & POLLIN) {
+    if((pfd.revents & POLLIN) || (i == received)) {
       sock.DriverOnReadable();
       return;
     } else if(pfd.revents & POLLOUT) {
